@@ -51,7 +51,8 @@ Fixpoint fmt (v : vinfo) (p : pat) : list N :=
   | PPart n k => ptext v n ++ fmt v k
   | POpt g k => (if zero v g then [] else fmt v g) ++ fmt v k
   end.
-Definition render (v : vinfo) (p : pat) : list N := if zero v p then [] else fmt v p.
+(* the pattern as a whole is never omitted (only optional groups are) *)
+Definition render (v : vinfo) (p : pat) : list N := fmt v p.
 
 Definition pre (name : str) : re := match part_regex name with Some r => r | None => Eps end.
 Definition pfield (name : str) : list N := match part_field name with Some f => f | None => [] end.
